@@ -90,7 +90,7 @@ theorem parsed_baseRec (idna : Idna) (bi : Bytes) (b : Url) (h : parse idna bi n
 
 /-- **both types report the same origin** -/
 theorem getOriginA_eq (idna : Idna) (r : Rec) (hb : BaseRec r) (hid : ∀ d, HP.IdnaAt idna d)
-    (hclean : r.scheme = bBlob → HS.bracketClean (schemeSpecial r.path) false (hostStart r.path) = true) :
+    (hclean : r.scheme = bBlob → AdaVerif.Lemmas.BR.bracketOk (schemeSpecial r.path) (hostStart r.path) = true) :
     getOriginA idna (layout (toL r)) = getOriginR idna r := by
   unfold getOriginA getOriginR
   rw [getProtocol_toL, Props.C07.getPathname_layout, getHost_toL_gen r hb]
